@@ -119,6 +119,19 @@ def elementwise(ctx, op, nested=()):
                         h = e4.local_hid(a_)
                         if h is None or (op == "div_scalar_inplace" and h not in phids):
                             ok = False
+            # .. position by position: the two lists are walked in lockstep as they are (an adaptor such as `flatten` / `filter` / `skip` on either side
+            # would pair the k-th remaining entry of one list with the k-th remaining entry of the other)
+            def plain_walk(e_):
+                e_ = strip(e_)
+                if e_ is not None and e_.get("k") == "mcall" and e_["name"] in ("iter", "iter_mut", "into_iter") and not e_["args"]:
+                    e_ = strip(e_["recv"])
+                while e_ is not None and e_.get("k") in ("ref", "un"):
+                    e_ = strip(e_["x"])
+                return e_ is not None and e_.get("k") == "local"
+            for x in walk(ra["arm"]["body"]):
+                if x.get("k") == "mcall" and x["name"] == "zip" and not (plain_walk(x["recv"]) and len(x["args"]) == 1 and plain_walk(x["args"][0])):
+                    ok = False
+                    cs = cs + ["zip of adapted sequences"]
             ctx.check("R15.1", inst, bool(ok and uses_zip), "nested-arm-does-not-recurse:" + ",".join(sorted(set(cs))), where,
                       "recurses into %s on aligned sub-tensors" % op,
                       "nested arm of %s calls %s" % (op, cs))
